@@ -368,7 +368,22 @@ def run(ctx):
         ctx.traces_validated += 1
         if not ok:
             ctx.violation(f"tokenize_html({text!r}, name='a'): {msg}", {"leg": "R-named", "text": text, "root_name": "a"})
-    ctx.leg("R", behaviours=len(uniq), not_concretisable=miss, named_root=nn)
+    # the model's rule for void elements (a start tag opens nothing) for EVERY void element name of HTML, not only the
+    # one in the event vocabulary
+    for v in sorted(void):
+        text = f'<div><{v} k="1"><{v}>t</div>'
+        ctx.count(("void", v))
+        ctx.traces_validated += 1
+        try:
+            root = H.tokenize_html(text)
+            els = list(root.find(v))
+            ok = str(root) == text and len(els) == 2 and all(len(list(e)) == 0 for e in els) and all(e.parent is not None and e.parent.name == "div" for e in els)
+            msg = f"rendered {str(root)!r}; {len(els)} <{v}> element(s), children {[len(list(e)) for e in els]}"
+        except Exception as e:  # noqa: BLE001
+            ok, msg = False, f"raised {type(e).__name__}: {e}"
+        if not ok:
+            ctx.violation(f"tokenize_html({text!r}): a void element must not enclose what follows it and must round-trip: {msg}", {"leg": "R-void", "text": text})
+    ctx.leg("R", behaviours=len(uniq), not_concretisable=miss, named_root=nn, void_names=len(void))
 
     # ---- V ----------------------------------------------------------------------------------
     n = 3000 if quick else 60000
